@@ -44,7 +44,8 @@ META = {
             'detail, request_id and code exactly from 1.23; every except clause answers 4xx and every domain exception '
             'of the object layer is caught; and a grammar-based malformed stream against the real application never '
             'produced a 5xx, an escaped exception, an ill-formed error body or a state change on 400/404/405/406/415 '
-            '(apart from the listed findings).',
+            '(apart from the listed findings); valid requests racing at transaction granularity (records created on first use) never '
+            'answered 5xx either.',
     'level_note': 'Theorems are about the Lean validator (Model/Schema.lean, Model/Regex.lean) applied to the generated '
                   'schema terms; its agreement with jsonschema 4.x + FormatChecker + re.search is cross-validated by '
                   'running both on generated and mutated documents, not proved.  bytes -> JSON, routing, webob, the '
